@@ -172,10 +172,17 @@ eval(struct expr *expr)
 		if (l->kind == EXPRCONST) {
 			expr->kind = EXPRCONST;
 			if (l->type->prop & PROPINT && t->prop & PROPFLOAT) {
-				if (l->type->u.basic.issigned)
+				/* convert directly to float to avoid rounding twice */
+				if (t->size == 4) {
+					if (l->type->u.basic.issigned)
+						expr->u.constant.f = (float)l->u.constant.i;
+					else
+						expr->u.constant.f = (float)l->u.constant.u;
+				} else if (l->type->u.basic.issigned) {
 					expr->u.constant.f = l->u.constant.i;
-				else
+				} else {
 					expr->u.constant.f = l->u.constant.u;
+				}
 			} else if (l->type->prop & PROPFLOAT && t->prop & PROPINT) {
 				if (t->kind == TYPEBOOL) {
 					expr->u.constant.u = l->u.constant.f != 0;
